@@ -238,9 +238,21 @@ def check(ctx, replay=None):
             S.update({"Pair": [("a", ("prim", "u8")), ("b", ("prim", "u32"))]})
             S.update({"Triple": [("pair", ("struct", "Pair")), ("c", ("prim", "u8"))], "Quad": [("p", ("struct", "Pair")), ("x", ("prim", "u16")), ("y", ("prim", "u64"))],
                       "Millis": [("value", ("prim", "u16"))], "Settings": [("id", ("prim", "u32")), ("timeout", ("struct", "Millis")), ("retries", ("prim", "u8"))],
-                      "WrapPair": [("inner", ("struct", "Pair"))], "OptS": [("a", ("prim", "u8")), ("o", ("opt", ("struct", "Settings"))), ("z", ("prim", "i64"))]})
+                      "WrapPair": [("inner", ("struct", "Pair"))], "OptS": [("a", ("prim", "u8")), ("o", ("opt", ("struct", "Settings"))), ("z", ("prim", "i64"))],
+                      # optional payloads of every alignment, 8 included (i64 slots are BigInts in the flattened argument list)
+                      "Payload": [("f", ("prim", "f64")), ("s", ("prim", "u16"))],
+                      "Holder": [("id", ("prim", "u8")), ("big", ("opt", ("prim", "u64"))), ("p", ("opt", ("struct", "Payload"))), ("small", ("opt", ("prim", "u32"))), ("tiny", ("opt", ("prim", "i8")))],
+                      "OptF": [("a", ("opt", ("prim", "f64"))), ("b", ("prim", "u8")), ("c", ("opt", ("prim", "i64")))],
+                      # single-primitive wrappers (and wrappers of wrappers) at non-zero offsets
+                      "Wrap16": [("v", ("prim", "u16"))], "WrapWrap": [("w", ("struct", "Wrap16"))],
+                      "Outer": [("a", ("prim", "u32")), ("w", ("struct", "Wrap16")), ("b", ("prim", "u8")), ("ww", ("struct", "WrapWrap")), ("c", ("prim", "i32"))]})
         src = os.path.join(d, f"lib{bi}.rs"); open(src, "w").write(bridge(S))
         vals = {n: [rand_val(S, ("struct", n), rng) for _ in range(3)] for n in S}
+        for n in S:        # the first value of every struct has all its optional fields present
+            for _ in range(200):
+                v = rand_val(S, ("struct", n), rng)
+                if all(v[fn] is not None for fn, ft in S[n] if ft[0] == "opt"):
+                    vals[n][0] = v; break
         for abi in ("legacy", "spec"):
             out = os.path.join(d, f"out_{bi}_{abi}")
             q = e2e.run_tool("js", src, out, config=[f"js.abi={abi}"])
